@@ -222,8 +222,14 @@ int s_advance_to_closing_tag(
             if (!aws_byte_cursor_find_exact(&parser->doc, &to_find_open, &open_find_result)) {
                 if (open_find_result.ptr < close_find_result.ptr) {
                     size_t skip_len = open_find_result.ptr - parser->doc.ptr;
+                    /* "<name" only opens another element of this name when the name ends there ("<name>" or
+                     * "<name attr..."), not when it is the prefix of a longer name ("<nameX") and not for "<name/>".
+                     * The byte exists: the closing tag found above lies behind it. */
+                    uint8_t after_name = open_find_result.ptr[to_find_open.len];
                     aws_byte_cursor_advance(&parser->doc, skip_len + 1);
-                    depth_count++;
+                    if (after_name == '>' || after_name == ' ') {
+                        depth_count++;
+                    }
                     continue;
                 }
             }
